@@ -13,7 +13,7 @@ RULE = ('case = 1-4 rule ASTs (C01 generator, derived rules share patterns / pre
         'a rule (or edited into a miss). Oracle = dict model per route (METHOD -> handler tag; a non-overwrite add hitting a taken method is rejected as a '
         'whole and changes nothing): expected handler = first registered of [M, GET if M == HEAD, ANY]; otherwise 405 whose Allow header parsed as a '
         'comma-separated list is duplicate-free and equals the registered set; 404 iff the reference matcher finds no route (never 405 without a route, never '
-        '404 with one). Observed on Ombott.to_route / RadiRouter.resolve and on the status line, Allow header and handler actually run through Ombott.__call__. '
+        '404 with one). Observed on Ombott.to_route / RadiRouter.resolve and on the status line, Allow header and handler actually run through Ombott.__call__ (requests with and without an Accept header asking for a JSON error document). '
         'Route hooks (per-prefix 404 handlers via error(404, rule=prefix), on_route hooks) may be installed on prefixes of the rules at any step: a 405 stays a 405 with Allow and never runs a prefix 404 handler. Plus: an overwrite=True registration on one thread against a request on another under every single-preemption schedule (answer must come from the old or the new handler). Non-trivial = the request exercises a fallback (HEAD->GET, ->ANY), a 405, a case-folded method name, or a route whose table was overwritten / reduced; '
         'distinct by case hash + request.')
 ASSUMPTIONS = ['route selection itself is C01; here paths are exact instantiations or clear misses, empty-binding verdicts are skipped',
@@ -36,7 +36,7 @@ def case_st(draw):
 
     def req():
         return {'req': True, 'method': spell(draw(st.sampled_from(VERBS + ['HEAD', 'GET', 'TRACE'])), draw(st.sampled_from([0, 0, 0, 1, 2]))),
-                'path': draw(R.path_for(draw(st.sampled_from(asts))))}
+                'path': draw(R.path_for(draw(st.sampled_from(asts)))), 'accept': draw(st.sampled_from([None, None, 'application/json', 'text/html', 'application/json, text/html;q=0.5']))}
     for _ in range(draw(st.integers(1, 10))):
         op = draw(st.sampled_from(['add', 'add', 'add', 'add_over', 'remove_method', 'rm_remove']))
         ms = draw(st.lists(st.sampled_from(VERBS), min_size=0 if draw(st.integers(0, 19)) == 0 else 1, max_size=3, unique=True))
@@ -184,9 +184,11 @@ def _request(ctx, case, app, box, model, order, texts, rq, edits_seen):
             raise CheckFailure(f'routes {desc}: {M} {path!r}: to_route gave {"handler " + str(end_point[0].handler()) if end_point else "error " + str(err[0])}, expected {want}')
         # ---- (b) through WSGI
         box.clear()
-        r = call_app(app, make_environ(method, path))
+        r = call_app(app, make_environ(method, path, headers=({'Accept': rq['accept']} if rq.get('accept') else None)))      # (the client may ask for a JSON error document)
         if r.escaped is not None:
             raise CheckFailure(f'{method} {path!r}: exception escaped {fmt_exc(r.escaped)}')
+        if rq.get('accept'):
+            ctx.count('request_with_accept_header')
         if want[0] == '404':
             if r.code != 404:
                 raise CheckFailure(f'routes {desc}: {method} {path!r} matches no route, answered {r.status!r}')
@@ -241,7 +243,8 @@ def run(ctx):
         regs = ['GET', 'HEAD', 'ANY', 'POST']
         for n in range(0, 5):
             for sub in itertools.combinations(regs, n):
-                reqs = [{'req': True, 'method': v, 'path': p} for v in ['GET', 'HEAD', 'POST', 'ANY', 'PUT', 'head', 'get'] for p in ['/r/1', '/nope']]
+                reqs = [{'req': True, 'method': v, 'path': p, 'accept': acc} for v in ['GET', 'HEAD', 'POST', 'ANY', 'PUT', 'head', 'get'] for p in ['/r/1', '/nope']
+                        for acc in (None, 'application/json')]
                 steps = [{'op': 'add', 'rule': 0, 'methods': [m], 'as_str': True} for m in sub] or [{'op': 'add', 'rule': 0, 'methods': [], 'as_str': False}]
                 # afterwards every method is removed one by one, with the full request set after each removal
                 tail = []
